@@ -148,6 +148,15 @@ CHECKS = {
         "Standard and Athena SQL are not executed; leading/trailing blanks of the whole filter are out of scope.",
         "DESIGN.md §6 C19",
     ),
+    "C08": (
+        "Hypothesis typed-grammar generation of templates x two sentinel assignments x three ORM backends; metamorphic oracle (identical SQL, no value text in SQL)",
+        "Every value literal of a generated ORM-fragment filter (strings, ints, reals, dates, date-times, GUIDs, list "
+        "elements, in every function-argument position) is replaced by two different sentinel assignments; the compiled "
+        "SQL of Django, SQLAlchemy ORM and Core must be byte-identical for both and contain no sentinel text; how many "
+        "sentinels reach the parameter list is measured.",
+        "Compile-time inspection only (sql_with_params / compile); strings carry a unique marker so that escaping cannot hide them.",
+        "DESIGN.md §6 C08",
+    ),
 }
 
 ALL = ["C%02d" % i for i in range(1, 21)]
